@@ -3,7 +3,7 @@
     model evaluations can be compared with the implementation without shipping literals in or out.
     The Python side (checks/c03.py, [Hash]) computes the same checksum from the implementation's results. *)
 From Coq Require Import List NArith ZArith Bool Uint63.
-From SV Require Import Text.Str Text.Prog Text.Escape Text.Tokenizer Text.TokGen.
+From SV Require Import Text.Str Text.Prog Text.Escape Text.EscPipeline Text.Tokenizer Text.TokGen.
 Import ListNotations.
 Open Scope N_scope.
 
@@ -67,7 +67,8 @@ Definition tok_shard_results (bitsl : list N) (prefix : str) (alpha : list N) (n
   flat_map (fun bits => map (fun w => tok_case bits (prefix ++ w)) (strings_upto alpha n)) bitsl.
 
 (** Escape side. *)
-Definition esc_case (ml : bool) (s : str) : list N := b2n ml :: N.of_nat (length s) :: s ++ escape gen_tables ml s.
+(** [gen_escape] = the pipeline read from the source (equal to [escape gen_tables] when the shape obligations hold). *)
+Definition esc_case (ml : bool) (s : str) : list N := b2n ml :: N.of_nat (length s) :: s ++ gen_escape ml s.
 Definition esc_shard_hash (ml : bool) (alpha : list N) (n : nat) : int :=
   sum_hash (map (fun w => hfin (hash_list (esc_case ml w))) (strings_upto alpha n)).
 
@@ -91,3 +92,26 @@ Definition chk_case (bits : N) (whole : bool) (cs : list str) : list N :=
 Definition chk_case_hash (c : N * bool * list str) : int :=
   hfin (hash_list (chk_case (fst (fst c)) (snd (fst c)) (snd c))).
 Definition flat_case_hash (c : N * str) : int := tok_case_hash (fst c) (snd c).
+
+(** In-kernel small-scope search for a counterexample to C02 on the model of the CODE (pipeline + tokenizer model):
+    all strings over [alpha] up to length [n] whose escaped form, between quotes, does not tokenize to exactly
+    [STRING s; EOF] (or whose single-line escaped form contains a line break / either form a raw double quote is
+    covered by the tokenizer run: a raw quote ends the string early). Empty on a correct tree. *)
+Definition nl_eqb (a b : list N) : bool :=
+  (fix go a b := match a, b with [], [] => true | x :: a', y :: b' => N.eqb x y && go a' b' | _, _ => false end) a b.
+Definition roundtrip_ok (ml : bool) (s : str) : bool :=
+  let e := gen_escape ml s in
+  let want := enc_results [RTok STRING s (1 + (if ml then N.of_nat (count_occ N.eq_dec s LF) else 0)) false;
+                           RTok EOF [] (1 + (if ml then N.of_nat (count_occ N.eq_dec s LF) else 0)) false] in
+  nl_eqb (enc_results (tokens_flat gen_tables default_opts 2 (length e + 4) 1 false (DQ :: e ++ [DQ]))) want
+  && (ml || negb (mem LF e || mem CR e)).
+Definition roundtrip_counterexamples (ml : bool) (alpha : list N) (n : nat) : list str :=
+  filter (fun s => negb (roundtrip_ok ml s)) (strings_upto alpha n).
+
+(** Characters on which [gen_escape] can differ from the identity on a one-character string: the values of ESCAPES
+    and the characters of every [replace] pattern (any other character is copied by every step). *)
+Definition interesting_chars : list N :=
+  map snd (esc_table gen_tables)
+  ++ flat_map (fun cs => match snd cs with PReplace o _ => o | PSub _ => [] end) gen_pipeline.
+Definition codepoint_table : list (N * list N * list N) :=
+  map (fun c => (c, gen_escape false [c], gen_escape true [c])) interesting_chars.
